@@ -103,6 +103,7 @@ func c06(c *eng.Ctx, r *eng.Report) {
 		"R6.4 no floating-point value flows into an amount except through Float64ToBigInt at the reviewed stake sites. " +
 		"R6.5 a failed transaction is rolled back through the journal, so the journal entries that carry balances (storageChange: balances and token slots live in account data; suicideChange: the balance a self-destruct zeroed) are undone by exactly their paired raw writes on every path through undo (the C04 pairing rule applied to these entries). " +
 		"R6.7 the affordability pre-check of a contract transaction prices the gas limit the transaction asked for (raw.GasLimit as decoded, never a smaller, capped figure): execution only ever lowers that limit, so the fee it bills is covered — a pre-check that caps differently from execution lets a debit be refused silently (SubBalance does nothing when funds are short) while the fee account is credited in full; " +
+		"R6.11 the amount locked for a stake is the amount later refunded: Float64ToBigInt multiplies a float64 by 10^18 in a big.Float whose precision was set, before the multiplication, to a constant of at least 113 bits (53 bits of mantissa times the 60 bits of 10^18) — at the default 53 bits a stake of 2365 locks 2364999999999999737856 wei while the refund path pays back the exact integer; " +
 		"R6.10 balances have one source of truth, the journaled storage: AccountDB/accountObject gain no field that is neither journaled nor reviewed (C04's R4.11 here — a cache of decoded balances that RevertToSnapshot does not drop lets a spend pass its affordability check on rolled-back funds); " +
 		"R6.8 the free gas a value-bearing CALL/CALLCODE hands its callee is the constant CallStipend, which is below the CallValueTransferGas the caller was charged: a stipend that grows (scaled with proposal 026 while the price is not) lets a loop of 1-wei calls end with more gas than the limit, `gasLimit - leftOverGas` wraps, the sender's debit is refused and the fee account is still credited; " +
 		"R6.9 the storage key of a balance is the caller's own: GetERC20Key returns a slice of an array allocated in that call, never of a buffer kept on the AccountDB — journal entries keep the key slice, so with a shared buffer every entry since a snapshot points at the key computed last and a revert writes all old balances into one slot; " +
@@ -120,6 +121,7 @@ func c06(c *eng.Ctx, r *eng.Report) {
 	c06BalanceKeyFresh(c, r)
 	// R6.10: no unjournaled mirror of balances on the state object (C04's struct census under this property's id)
 	c04StructCensusAs(c, r, "R6.10")
+	c06StakeConversionExact(c, r)
 	// R6.6: locked stake is part of the conserved total (the `lock` class of R6.1): what a refund pays out is exactly
 	// what it takes off the miner's recorded stake (C20's R20.3 re-run under this property's id)
 	sub := eng.NewReport(r.Prop, r.Tier)
@@ -610,4 +612,36 @@ func c06BalanceKeyFreshAs(c *eng.Ctx, r *eng.Report, rule string) {
 		}
 	}
 	r.Check(bad == "", rule, "GetERC20Key:fresh", c.Pos(fn.Pos()), "returns a slice of an array allocated in the call", "GetERC20Key returns "+bad+", memory that outlives the call and is overwritten by the next one: accountObject.SetData journals the key slice it is given, so after two balance writes both journal entries name the second key — RevertToSnapshot restores both old balances into that one slot, the sender stays debited and the recipient keeps the sender's old balance")
+}
+
+// c06StakeConversionExact: see R6.11.
+func c06StakeConversionExact(c *eng.Ctx, r *eng.Report) {
+	const rule = "R6.11"
+	r.Min(rule, 1)
+	fn := c.Func("utility", "Float64ToBigInt")
+	if !r.Anchor(fn != nil, rule, "utility.Float64ToBigInt") {
+		return
+	}
+	var mul *eng.Site
+	sites := eng.Sites(fn)
+	for i := range sites {
+		if sites[i].Name() == "(*math/big.Float).Mul" {
+			mul = &sites[i]
+		}
+	}
+	if !r.Anchor(mul != nil, rule, "Float64ToBigInt: (*big.Float).Mul") {
+		return
+	}
+	z := eng.ResolveLocal(mul.Common().Args[0])
+	ok, got := false, int64(53)
+	for _, s := range sites {
+		if s.Name() != "(*math/big.Float).SetPrec" || eng.ResolveLocal(s.Common().Args[0]) != z {
+			continue
+		}
+		if k, isK := eng.ConstInt(s.Common().Args[1]); isK && eng.Dominates(s.Instr, mul.Instr) {
+			got = k
+			ok = k >= 113
+		}
+	}
+	r.Check(ok, rule, "stake-conversion:exact", c.Pos(mul.Pos()), fmt.Sprintf("the product is computed at %d bits of precision", got), fmt.Sprintf("Float64ToBigInt multiplies by 10^18 in a big.Float of %d bits: the product of a 53-bit mantissa and 10^18 needs up to 113 bits, so it is rounded — AddMiner/AddStake lock 2364999999999999737856 wei for a stake of 2365 while the refund path (Uint64ToBigInt) pays back 2365·10^18: the round trip mints 262144 wei", got))
 }
